@@ -24,3 +24,90 @@ Definition uarith_sound (op : Z -> Z -> Z -> ures) (w : Z) (c : code) (entry : Z
   | UOk v => m (ap s' - 2) = 0 /\ m (ap s' - 1) = v
   | UErr v => m (ap s' - 2) = 1 /\ m (ap s' - 1) = v
   end.
+
+(* ---- builtin-free libfuncs ---- *)
+(* T x T -> bool: u*_eq, i*_eq (the cells hold canonical felts; equality of cells = equality of values) *)
+Definition eq_sound (c : code) (entry : Z) : Prop :=
+  forall (m : mem) (pb : Z) (s0 s' : st),
+  mem_canonical m -> pc s0 = pb + entry -> reaches m pb c 0 s0 s' ->
+  let a := m (fp s0 - 4) in let b := m (fp s0 - 3) in
+  fp s' = fp s0 /\ m (ap s' - 1) = (if a =? b then 1 else 0).
+
+(* felt252 -> bool (a == 0) *)
+Definition felt_is_zero_sound (c : code) (entry : Z) : Prop :=
+  forall (m : mem) (pb : Z) (s0 s' : st),
+  mem_canonical m -> pc s0 = pb + entry -> reaches m pb c 0 s0 s' ->
+  let a := m (fp s0 - 3) in
+  fp s' = fp s0 /\ m (ap s' - 1) = (if a =? 0 then 1 else 0).
+
+(* T -> Option<NonZero<T>> : u*_is_zero through TryInto; Some(a) = (0, a), None = (1, 0) *)
+Definition is_zero_sound (c : code) (entry : Z) : Prop :=
+  forall (m : mem) (pb : Z) (s0 s' : st),
+  mem_canonical m -> pc s0 = pb + entry -> reaches m pb c 0 s0 s' ->
+  let a := m (fp s0 - 3) in
+  fp s' = fp s0 /\
+  m (ap s' - 2) = (if a =? 0 then 1 else 0) /\ m (ap s' - 1) = (if a =? 0 then 0 else a).
+
+(* value-preserving conversions: *_to_felt252, upcast -- the returned cell is the argument cell *)
+Definition ident_sound (c : code) (entry : Z) : Prop :=
+  forall (m : mem) (pb : Z) (s0 s' : st),
+  mem_canonical m -> pc s0 = pb + entry -> reaches m pb c 0 s0 s' ->
+  fp s' = fp s0 /\ m (ap s' - 1) = m (fp s0 - 3).
+
+(* u*_wide_mul for w <= 64: the exact product *)
+Definition uwide_mul_sound (w : Z) (c : code) (entry : Z) : Prop :=
+  forall (m : mem) (pb : Z) (s0 s' : st),
+  mem_canonical m -> pc s0 = pb + entry -> reaches m pb c 0 s0 s' ->
+  let a := m (fp s0 - 4) in let b := m (fp s0 - 3) in
+  in_u w a -> in_u w b ->
+  fp s' = fp s0 /\ m (ap s' - 1) = a * b.
+
+(* i*_wide_mul: arguments are the felts of the signed values va, vb *)
+Definition in_i (w v : Z) : Prop := - 2 ^ (w - 1) <= v < 2 ^ (w - 1).
+Definition iwide_mul_sound (w : Z) (c : code) (entry : Z) : Prop :=
+  forall (m : mem) (pb : Z) (s0 s' : st) (va vb : Z),
+  mem_canonical m -> pc s0 = pb + entry -> reaches m pb c 0 s0 s' ->
+  in_i w va -> in_i w vb -> m (fp s0 - 4) = va mod P -> m (fp s0 - 3) = vb mod P ->
+  fp s' = fp s0 /\ m (ap s' - 1) = (va * vb) mod P.
+
+(* felt252 + - * *)
+Definition felt_binop_sound (f : Z -> Z -> Z) (c : code) (entry : Z) : Prop :=
+  forall (m : mem) (pb : Z) (s0 s' : st),
+  mem_canonical m -> pc s0 = pb + entry -> reaches m pb c 0 s0 s' ->
+  let a := m (fp s0 - 4) in let b := m (fp s0 - 3) in
+  fp s' = fp s0 /\ m (ap s' - 1) = f a b.
+
+(* u*_safe_divmod: (RangeCheck, T, NonZero<T>) -> (RangeCheck, T, T); [n] range-check cells *)
+Definition udivmod_sound (w n : Z) (c : code) (entry : Z) : Prop :=
+  forall (m : mem) (pb : Z) (s0 s' : st),
+  mem_canonical m -> pc s0 = pb + entry -> reaches m pb c 0 s0 s' ->
+  let rc := m (fp s0 - 5) in let a := m (fp s0 - 4) in let b := m (fp s0 - 3) in
+  in_u w a -> in_u w b -> b <> 0 -> rc + n < P -> rc_ok m rc (rc + n) ->
+  fp s' = fp s0 /\
+  m (ap s' - 3) = rc + n /\ m (ap s' - 2) = a / b /\ m (ap s' - 1) = a mod b.
+
+(* u*_sqrt: (RangeCheck, T) -> (RangeCheck, T') *)
+Definition usqrt_sound (w : Z) (c : code) (entry : Z) : Prop :=
+  forall (m : mem) (pb : Z) (s0 s' : st),
+  mem_canonical m -> pc s0 = pb + entry -> reaches m pb c 0 s0 s' ->
+  let rc := m (fp s0 - 4) in let a := m (fp s0 - 3) in
+  in_u w a -> rc + 4 < P -> rc_ok m rc (rc + 4) ->
+  fp s' = fp s0 /\ m (ap s' - 2) = rc + 4 /\ m (ap s' - 1) = Z.sqrt a.
+
+(* i*_overflowing_add / sub through core::num::traits::OverflowingAdd/Sub (the extern
+   i*_overflowing_{add,sub}_impl + the match that turns its three-way result into (value, flag)):
+   (RangeCheck, T, T) -> (RangeCheck, (T, bool)).  va, vb are the signed values, the cells hold
+   their felts; the result is the wrapped value and the out-of-range flag.  In range the libfunc
+   consumes [n_in] range-check cells, otherwise [n_out]. *)
+Definition iwrap (w r : Z) : Z := (r + 2 ^ (w - 1)) mod 2 ^ w - 2 ^ (w - 1).
+Definition ifits (w r : Z) : bool := (- 2 ^ (w - 1) <=? r) && (r <? 2 ^ (w - 1)).
+Definition iarith_sound (f : Z -> Z -> Z) (w n_in n_out : Z) (c : code) (entry : Z) : Prop :=
+  forall (m : mem) (pb : Z) (s0 s' : st) (va vb : Z),
+  mem_canonical m -> pc s0 = pb + entry -> reaches m pb c 0 s0 s' ->
+  let rc := m (fp s0 - 5) in
+  in_i w va -> in_i w vb -> m (fp s0 - 4) = va mod P -> m (fp s0 - 3) = vb mod P ->
+  rc + 2 < P -> rc_ok m rc (rc + 2) ->
+  fp s' = fp s0 /\
+  m (ap s' - 3) = rc + (if ifits w (f va vb) then n_in else n_out) /\
+  m (ap s' - 2) = (iwrap w (f va vb)) mod P /\
+  m (ap s' - 1) = (if ifits w (f va vb) then 0 else 1).
